@@ -211,6 +211,7 @@ func (fm *Server) Init(ctx context.Context, req *pb.InitRequest) (*pb.Response, 
 	fm.curCRIServer = cc.CRIServer
 
 	fs, err := service.NewFileSystem(ctx, fm.root, &fm.config.Config, opts...)
+	fs, err = verifOverrideFS(fm, fs, err)
 	if err != nil {
 		return &pb.Response{}, err
 	}
